@@ -5,6 +5,7 @@
 // bytes into a fresh variable of v's type must give back v and the root name.
 // (B) every document of <= N nodes decoded into RawMessage / dynbt.Value at the root, in a struct
 // field, in a map and in a list, then re-encoded: bytes must be identical.
+// (C)-(F): histories, used carrier destinations, size classes and name lengths, see extra.go.
 package main
 
 import (
@@ -12,7 +13,10 @@ import (
 	"encoding/hex"
 	"encoding/json"
 	"fmt"
+	"io"
+	"os"
 	"reflect"
+	"strconv"
 	"strings"
 	"sync/atomic"
 	"time"
@@ -100,64 +104,145 @@ func eraseIgnored(v reflect.Value) reflect.Value {
 }
 
 func judgeRoundTrip(v reflect.Value, cfg rtCfg) (class, detail string) {
+	return judgeRT(v, rtx{network: cfg.network, ptr: cfg.ptr, name: "root", reader: "bytes", entry: "coder"})
+}
+
+// rtx is one way of taking a value through the codec: format, value/pointer argument, the root
+// name handed to the encoder, how the encoded bytes are delivered to the decoder and which pair of
+// entry points is used.
+type rtx struct {
+	network, ptr bool
+	name         string // root name given to Encode ("coder" entry only)
+	reader       string // "bytes" (*bytes.Reader), "plain" (io.Reader only, whole reads), "onebyte" (io.Reader only, 1 byte per Read)
+	entry        string // "coder": NewEncoder(..).Encode / NewDecoder(..).Decode; "marshal": nbt.Marshal / nbt.Unmarshal
+	sig          string // class fragment for the type ("" = nbtgo.KindSig)
+}
+
+func (o rtx) String() string {
+	return fmt.Sprintf("network=%v ptr=%v name_len=%d reader=%s entry=%s", o.network, o.ptr, len(o.name), o.reader, o.entry)
+}
+
+// oneByteReader hands out one byte per Read and hides every optional interface.
+type oneByteReader struct {
+	data []byte
+	pos  int
+}
+
+func (r *oneByteReader) Read(b []byte) (int, error) {
+	if len(b) == 0 {
+		return 0, nil
+	}
+	if r.pos >= len(r.data) {
+		return 0, io.EOF
+	}
+	b[0] = r.data[r.pos]
+	r.pos++
+	return 1, nil
+}
+
+func mkReader(kind string, data []byte) io.Reader {
+	switch kind {
+	case "plain":
+		return &engine.PlainReader{Data: data}
+	case "onebyte":
+		return &oneByteReader{data: data}
+	}
+	return bytes.NewReader(data)
+}
+
+// encodeStep encodes v. data is what the entry point returned (NOT copied: whether it stays
+// intact while other encodings are produced is part of what the history families observe).
+// skip: the statement promises no round trip for v (counted as unspecified).
+func encodeStep(v reflect.Value, o rtx) (data []byte, class, detail string, skip bool) {
 	t := v.Type()
 	work := reflect.New(t)
 	work.Elem().Set(nbtgo.Snapshot(v))
 	snap := nbtgo.Snapshot(v)
 	var arg any
-	if cfg.ptr {
+	if o.ptr {
 		arg = work.Interface()
 	} else {
 		arg = work.Elem().Interface()
 		// the encoder receives a copy of the struct header; nested pointers/slices still alias work
 	}
-	var buf bytes.Buffer
 	var err error
 	kind, frame, panicked := engine.Guard(func() {
+		if o.entry == "marshal" {
+			data, err = nbt.Marshal(arg)
+			return
+		}
+		var buf bytes.Buffer
 		e := nbt.NewEncoder(&buf)
-		e.NetworkFormat(cfg.network)
-		err = e.Encode(arg, "root")
+		e.NetworkFormat(o.network)
+		err = e.Encode(arg, o.name)
+		data = buf.Bytes()
 	})
 	if panicked {
-		return "encode/panic/" + frame + "/" + kind, fmt.Sprintf("Encode panicked: %s in %s", kind, frame)
+		return nil, "encode/panic/" + frame + "/" + kind, fmt.Sprintf("Encode panicked: %s in %s", kind, frame), false
 	}
 	if !nbtgo.Identical(work.Elem(), snap) {
-		return "encode/modifies-input/" + diffKind(snap, work.Elem()), "value after Encode differs from the value before"
+		return nil, "encode/modifies-input/" + diffKind(snap, work.Elem()), "value after Encode differs from the value before", false
 	}
 	if why := notRoundTrippable(v); why != "" {
 		rep.Unspec(1)
 		rep.Count("unspecified: "+why, 1)
-		return "", ""
+		return nil, "", "", true
 	}
-	sig := nbtgo.KindSig(t)
 	if err != nil {
-		return "encode/error-on-documented-kind/" + sig, "Encode returned " + err.Error()
+		sig := o.sig
+		if sig == "" {
+			sig = nbtgo.KindSig(t)
+		}
+		return nil, "encode/error-on-documented-kind/" + sig, "Encode returned " + err.Error(), false
+	}
+	return data, "", "", false
+}
+
+// decodeStep decodes data into a fresh variable of v's type and compares with v and the root name.
+func decodeStep(v reflect.Value, data []byte, o rtx) (class, detail string) {
+	t := v.Type()
+	sig := o.sig
+	if sig == "" {
+		sig = nbtgo.KindSig(t)
 	}
 	fresh := reflect.New(t)
 	var name string
-	kind, frame, panicked = engine.Guard(func() {
-		d := nbt.NewDecoder(bytes.NewReader(buf.Bytes()))
-		d.NetworkFormat(cfg.network)
+	var err error
+	kind, frame, panicked := engine.Guard(func() {
+		if o.entry == "marshal" {
+			err = nbt.Unmarshal(data, fresh.Interface())
+			return
+		}
+		d := nbt.NewDecoder(mkReader(o.reader, data))
+		d.NetworkFormat(o.network)
 		name, err = d.Decode(fresh.Interface())
 	})
 	if panicked {
 		return "decode/panic/" + frame + "/" + kind, fmt.Sprintf("Decode of own encoding panicked: %s in %s", kind, frame)
 	}
 	if err != nil {
-		return "roundtrip/decode-error/" + sig, fmt.Sprintf("decoding %x into a fresh %s: %v", clipB(buf.Bytes()), t, err)
+		return "roundtrip/decode-error/" + sig, fmt.Sprintf("decoding %x into a fresh %s: %v", clipB(data), clipS(t.String(), 120), err)
 	}
-	want := "root"
-	if cfg.network {
-		want = ""
+	want := o.name
+	if o.network || o.entry == "marshal" {
+		want = "" // network format carries no root name; Marshal writes "" and Unmarshal does not return it
 	}
 	if name != want {
-		return "roundtrip/root-name", fmt.Sprintf("root name %q, want %q", name, want)
+		return "roundtrip/root-name", fmt.Sprintf("root name %q, want %q", clipS(name, 80), clipS(want, 80))
 	}
 	exp := eraseIgnored(v)
 	if !nbtgo.RoundTripEqual(exp, fresh.Elem()) {
-		return "roundtrip/not-equal/" + sig, fmt.Sprintf("decoded %#v", fresh.Elem().Interface())
+		return "roundtrip/not-equal/" + sig, "decoded " + clipS(fmt.Sprintf("%#v", fresh.Elem().Interface()), 400)
 	}
 	return "", ""
+}
+
+func judgeRT(v reflect.Value, o rtx) (class, detail string) {
+	data, class, detail, skip := encodeStep(v, o)
+	if class != "" || skip {
+		return class, detail
+	}
+	return decodeStep(v, data, o)
 }
 
 // diffKind names the first difference between the value before and after encoding.
@@ -286,7 +371,17 @@ func typedRoundTrip(depth int, deadline time.Time) {
 				})
 			}
 		}
-		atomic.AddInt64(&evals, int64(len(rtCfgs)))
+		for _, ptr := range []bool{false, true} {
+			o := rtx{ptr: ptr, reader: "bytes", entry: "marshal"}
+			class, detail := judgeRT(v, o)
+			if class != "" {
+				rep.FailLazy(class, len(nbtgo.KindSig(t))*1000+len(nbtgo.Describe(v)), func() engine.Failure {
+					return engine.Failure{Detail: detail + " [" + o.String() + "] value: " + clipS(nbtgo.Describe(v), 300),
+						Case: RTCase{"roundtrip", c.Tape(), depth, clipS(nbtgo.Describe(v), 300), o.String()}}
+				})
+			}
+		}
+		atomic.AddInt64(&evals, int64(len(rtCfgs)+2))
 	})
 	if !st.Complete {
 		rep.Cap("typed round trip (type depth %d) stopped by deadline after %d values", depth, st.Executions)
@@ -322,7 +417,7 @@ func (c carCfg) String() string {
 
 func allCarCfgs() (out []carCfg) {
 	for _, car := range []string{"raw", "dynbt"} {
-		for _, pos := range []string{"root", "field", "map", "list", "valuefield"} {
+		for _, pos := range []string{"root", "field", "map", "list", "array", "valuefield"} {
 			if pos == "valuefield" && car != "dynbt" {
 				continue
 			}
@@ -336,74 +431,128 @@ func allCarCfgs() (out []carCfg) {
 
 var carCfgs = allCarCfgs()
 
-func judgeCarrier(tree *refnbt.Node, cfg carCfg) (class, detail string) {
-	// build the enclosing document
-	var outer *refnbt.Node
+// carrierOuter wraps tree into the document that puts it at cfg.position.
+func carrierOuter(tree *refnbt.Node, cfg carCfg) *refnbt.Node {
 	switch cfg.position {
-	case "root":
-		outer = tree
 	case "field", "valuefield":
-		outer = &refnbt.Node{Tag: refnbt.Compound, Fields: []refnbt.Field{{Name: "f", Val: tree}}}
+		return &refnbt.Node{Tag: refnbt.Compound, Fields: []refnbt.Field{{Name: "f", Val: tree}}}
 	case "map":
-		outer = &refnbt.Node{Tag: refnbt.Compound, Fields: []refnbt.Field{{Name: "k", Val: tree}}}
-	case "list":
-		outer = &refnbt.Node{Tag: refnbt.List, ElemTag: tree.Tag, Elems: []*refnbt.Node{tree, tree}}
+		return &refnbt.Node{Tag: refnbt.Compound, Fields: []refnbt.Field{{Name: "k", Val: tree}}}
+	case "list", "array":
+		return &refnbt.Node{Tag: refnbt.List, ElemTag: tree.Tag, Elems: []*refnbt.Node{tree, tree}}
 	}
-	name := "rt"
-	if cfg.network {
-		name = ""
-	}
-	doc := refnbt.Append(nil, name, outer, cfg.network)
-	var target any
+	return tree
+}
+
+// carrierTarget is a fresh destination holding the carrier at cfg.position.
+func carrierTarget(cfg carCfg) any {
 	switch cfg.carrier + "/" + cfg.position {
 	case "raw/root":
-		target = new(nbt.RawMessage)
+		return new(nbt.RawMessage)
 	case "raw/field":
-		target = new(rawField)
+		return new(rawField)
 	case "raw/map":
-		target = new(map[string]nbt.RawMessage)
+		return new(map[string]nbt.RawMessage)
 	case "raw/list":
-		target = new([]nbt.RawMessage)
+		return new([]nbt.RawMessage)
+	case "raw/array":
+		return new([2]nbt.RawMessage)
 	case "dynbt/root":
-		target = new(dynbt.Value)
+		return new(dynbt.Value)
 	case "dynbt/field":
-		target = new(dynPtrField)
+		return new(dynPtrField)
 	case "dynbt/valuefield":
-		target = new(dynField)
+		return new(dynField)
 	case "dynbt/map":
-		target = new(map[string]*dynbt.Value)
+		return new(map[string]*dynbt.Value)
 	case "dynbt/list":
-		target = new([]*dynbt.Value)
+		return new([]*dynbt.Value)
+	case "dynbt/array":
+		return new([2]*dynbt.Value)
 	}
+	panic("no target for " + cfg.String())
+}
+
+// carx says how a carrier case is driven: root name of the document, reader kind, entry points.
+type carx struct {
+	name   string // root name (file format only)
+	reader string // see rtx.reader
+	entry  string // "coder" or "marshal" (nbt.Unmarshal / nbt.Marshal: file format, root name "")
+}
+
+var plainCarx = carx{name: "rt", reader: "bytes", entry: "coder"}
+
+func (x carx) rootName(cfg carCfg) string {
+	if cfg.network || x.entry == "marshal" {
+		return ""
+	}
+	return x.name
+}
+
+// carrierDecode decodes doc into target (fresh or used).
+func carrierDecode(target any, doc []byte, tree *refnbt.Node, cfg carCfg, x carx) (gotName, class, detail string) {
 	var err error
-	var gotName string
 	kind, frame, panicked := engine.Guard(func() {
-		d := nbt.NewDecoder(bytes.NewReader(doc))
+		if x.entry == "marshal" {
+			err = nbt.Unmarshal(doc, target)
+			return
+		}
+		d := nbt.NewDecoder(mkReader(x.reader, doc))
 		d.NetworkFormat(cfg.network)
 		gotName, err = d.Decode(target)
 	})
 	pre := "carrier/" + cfg.carrier + "/" + cfg.position + "/"
-	sig := nbtgo.TagSig(tree)
 	if panicked {
-		return pre + "decode-panic/" + frame + "/" + kind, "panic " + kind + " in " + frame
+		return "", pre + "decode-panic/" + frame + "/" + kind, "panic " + kind + " in " + frame
 	}
 	if err != nil {
-		return pre + "decode-error/" + sig, "well-formed document rejected: " + err.Error()
+		return "", pre + "decode-error/" + nbtgo.TagSig(tree), "well-formed document rejected: " + err.Error()
 	}
-	var buf bytes.Buffer
-	kind, frame, panicked = engine.Guard(func() {
+	return gotName, "", ""
+}
+
+// carrierEncode re-encodes target under the root name the decoder reported. The returned slice
+// is what the entry point handed out (not copied).
+func carrierEncode(target any, gotName string, tree *refnbt.Node, cfg carCfg, x carx) (out []byte, class, detail string) {
+	var err error
+	kind, frame, panicked := engine.Guard(func() {
+		if x.entry == "marshal" {
+			out, err = nbt.Marshal(target)
+			return
+		}
+		var buf bytes.Buffer
 		e := nbt.NewEncoder(&buf)
 		e.NetworkFormat(cfg.network)
 		err = e.Encode(target, gotName)
+		out = buf.Bytes()
 	})
+	pre := "carrier/" + cfg.carrier + "/" + cfg.position + "/"
 	if panicked {
-		return pre + "encode-panic/" + frame + "/" + kind, "panic " + kind + " in " + frame
+		return nil, pre + "encode-panic/" + frame + "/" + kind, "panic " + kind + " in " + frame
 	}
 	if err != nil {
-		return pre + "encode-error/" + sig, "re-encoding failed: " + err.Error()
+		return nil, pre + "encode-error/" + nbtgo.TagSig(tree), "re-encoding failed: " + err.Error()
 	}
-	if !bytes.Equal(buf.Bytes(), doc) {
-		return pre + "not-byte-exact/" + sig, fmt.Sprintf("decoded %x, re-encoded %x", clipB(doc), clipB(buf.Bytes()))
+	return out, "", ""
+}
+
+func judgeCarrier(tree *refnbt.Node, cfg carCfg) (class, detail string) {
+	return judgeCarrierX(tree, cfg, plainCarx)
+}
+
+func judgeCarrierX(tree *refnbt.Node, cfg carCfg, x carx) (class, detail string) {
+	doc := refnbt.Append(nil, x.rootName(cfg), carrierOuter(tree, cfg), cfg.network)
+	target := carrierTarget(cfg)
+	gotName, class, detail := carrierDecode(target, doc, tree, cfg, x)
+	if class != "" {
+		return class, detail
+	}
+	out, class, detail := carrierEncode(target, gotName, tree, cfg, x)
+	if class != "" {
+		return class, detail
+	}
+	if !bytes.Equal(out, doc) {
+		return "carrier/" + cfg.carrier + "/" + cfg.position + "/not-byte-exact/" + nbtgo.TagSig(tree), fmt.Sprintf("decoded %x, re-encoded %x", clipB(doc), clipB(out))
 	}
 	return "", ""
 }
@@ -435,7 +584,23 @@ func carriers(nFull, nRed int, deadline time.Time) {
 					})
 				}
 			}
-			atomic.AddInt64(&evals, int64(len(carCfgs)))
+			nm := 0
+			for _, cfg := range carCfgs {
+				if cfg.network {
+					continue
+				}
+				nm++
+				x := carx{reader: "bytes", entry: "marshal"}
+				class, detail := judgeCarrierX(tree, cfg, x)
+				if class != "" {
+					cfg := cfg
+					rep.FailLazy(class, tree.Count()*1000+len(detail), func() engine.Failure {
+						return engine.Failure{Detail: detail + " [" + carxString(cfg, x) + "] doc=" + clipS(tree.String(), 200),
+							Case: CarCase{"carrier", c.Tape(), g.name, g.n, clipS(tree.String(), 300), carxString(cfg, x)}}
+					})
+				}
+			}
+			atomic.AddInt64(&evals, int64(len(carCfgs)+nm))
 		})
 		if !st.Complete {
 			rep.Cap("carriers (%s alphabet, <=%d nodes) stopped by deadline after %d trees", g.name, g.n, st.Executions)
@@ -499,20 +664,47 @@ func clipB(b []byte) []byte {
 
 func main() {
 	rep = engine.NewReport("C02")
-	rep.Rule = "(A) every (type,value) of the reflect-built universe to the stated depth x {file,network} x {value,pointer}; (B) every tree of <=N nodes x {RawMessage, dynbt.Value} x {root, struct field, pointer field, map value, list element} x {file,network}. distinct_nontrivial = distinct (type,value) pairs + distinct trees"
+	rep.Rule = "(A) every (type,value) of the reflect-built universe to the stated depth x {file,network} x {value,pointer} through Encoder/Decoder, and x {value,pointer} through nbt.Marshal/nbt.Unmarshal; (B) every tree of <=N nodes x {RawMessage, dynbt.Value} x {root, struct field, pointer field, map value, list element, array element} x {file,network} (+ Marshal/Unmarshal for the file format); (C) histories of 2 (depth-1 menu) / 3 (scalar menu) encodings kept alive together, typed and through carriers; (D) ordered pairs of documents decoded into one carrier object; (E) every length of the length menu x shapes x delivery of the bytes; (F) every name length of the menu x name positions. distinct_nontrivial = distinct (type,value) pairs + distinct trees + histories + (shape,length) cases"
 	if rep.ReplayPath != "" {
 		replay()
 		return
 	}
 	depth, nFull, nRed := 2, 2, 3
-	dl := time.Now().Add(70 * time.Second)
+	start := time.Now()
+	// C02_DEADLINE_SCALE stretches the internal deadlines (for runs on an overloaded machine only;
+	// the enumerated space does not depend on it).
+	scale := 1.0
+	if f, err := strconv.ParseFloat(os.Getenv("C02_DEADLINE_SCALE"), 64); err == nil && f >= 1 {
+		scale = f
+	}
+	after := func(d time.Duration) time.Time { return start.Add(time.Duration(float64(d) * scale)) }
+	dl := after(70 * time.Second)
 	if rep.Thorough() {
 		depth, nFull, nRed = 3, 2, 4
-		dl = time.Now().Add(12 * time.Minute)
+		dl = after(12 * time.Minute)
 	}
-	typedRoundTrip(depth, dl)
-	carriers(nFull, nRed, dl.Add(20*time.Second))
-	catalogue()
+	if os.Getenv("C02_ONLY") != "extras" { // development aid: run only the families of extra.go
+		typedRoundTrip(depth, dl)
+		carriers(nFull, nRed, dl.Add(20*time.Second))
+		catalogue()
+	} else {
+		rep.Cap("C02_ONLY=extras: families (A), (B) and the catalogue were skipped")
+	}
+	// families (C)-(F) take a few seconds (quick) / about a minute (thorough) on an idle machine
+	xdl := after(150 * time.Second)
+	if rep.Thorough() {
+		xdl = after(14*time.Minute + 30*time.Second)
+	}
+	timed := func(name string, f func()) {
+		t0 := time.Now()
+		f()
+		rep.Extra("wall_s_"+name, time.Since(t0).Seconds())
+	}
+	timed("name_lengths", func() { nameLengths(rep.Thorough(), xdl) })
+	timed("used_destinations", func() { usedDestinations(xdl) })
+	timed("alive_carriers", func() { aliveCarriers(xdl) })
+	timed("size_classes", func() { sizeClasses(rep.Thorough(), xdl) })
+	timed("alive_typed", func() { aliveTyped(xdl) })
 	rep.Extra("type_depth", depth)
 	rep.Extra("nodes_full_alphabet", nFull)
 	rep.Extra("nodes_reduced_alphabet", nRed)
@@ -549,6 +741,14 @@ func replay() {
 					rep.Eval(1)
 				}
 			}
+			for _, ptr := range []bool{false, true} {
+				if o := (rtx{ptr: ptr, reader: "bytes", entry: "marshal"}); o.String() == c.Conf {
+					if class, detail := judgeRT(v, o); class != "" {
+						rep.Fail(engine.Failure{Class: class, Detail: detail, Case: c}, 0)
+					}
+					rep.Eval(1)
+				}
+			}
 		}
 	case "carrier":
 		var c CarCase
@@ -567,12 +767,20 @@ func replay() {
 					}
 					rep.Eval(1)
 				}
+				if x := (carx{reader: "bytes", entry: "marshal"}); carxString(cfg, x) == c.Conf {
+					if class, detail := judgeCarrierX(tree, cfg, x); class != "" {
+						rep.Fail(engine.Failure{Class: class, Detail: detail, Case: c}, 0)
+					}
+					rep.Eval(1)
+				}
 			}
 		}
 	case "catalogue":
 		catalogue()
 	default:
-		engine.HarnessError("unknown case kind %q", probe.Kind)
+		if !replayExtra(probe.Kind, rp.Case) {
+			engine.HarnessError("unknown case kind %q", probe.Kind)
+		}
 	}
 	rep.Finish()
 }
